@@ -69,7 +69,7 @@ EXTRA = ["x", " ", "\0", "é", "€", "\U0001d11e", "A", "_"]
 # ------------------------------------------------------------------ values
 
 def gen_str(rng, fmt=True):
-    n = rng.choice([0, 0, 1, 1, 2, 2, 3, 5])
+    n = rng.choice([0, 0, 1, 1, 2, 2, 3, 5, 5, 10, 11, 23])
     pool = FMT if fmt and rng.random() < 0.7 else FMT + "".join(EXTRA)
     return "".join(rng.choice(pool) for _ in range(n))
 
@@ -90,9 +90,10 @@ def gen_val(rng, depth=3, mixed=False):
     if depth == 0 or r < 0.3:
         return gen_int(rng) if rng.random() < 0.45 else gen_str(rng)
     if r < 0.65:
-        xs = [gen_val(rng, depth - 1, mixed) for _ in range(rng.choice([0, 1, 2, 2, 3]))]
+        xs = [gen_val(rng, depth - 1 if rng.random() < 0.8 else 0, mixed)
+              for _ in range(rng.choice([0, 1, 2, 2, 3, 3, 10, 12]) if depth == 3 else rng.choice([0, 1, 2, 2, 3]))]
         return tuple(xs) if rng.random() < 0.3 else xs
-    n = rng.choice([0, 1, 2, 2, 3, 4])
+    n = rng.choice([0, 1, 2, 2, 3, 4, 11]) if depth == 3 else rng.choice([0, 1, 2, 2, 3, 4])
     d = {}
     intkeys = rng.random() < 0.3
     for _ in range(n):
@@ -245,6 +246,7 @@ def part_f(ctx, n, oracle_only=False):
         if mixed != (got[0] == "err"):
             # a mixed-key dict with a single comparison-free sort (<= 1 key) cannot occur: mixed needs >= 2 keys
             ctx.fail(case, "mixed-key dict %s but flatten %s" % (mixed, got[0]))
+            continue
         if got[0] == "ok":
             prev = seen.setdefault(got[1], (cx, repr(x)))
             if prev[0] != cx:
